@@ -95,6 +95,8 @@ def server_wiring_rule(ck, P):
 
 
 def rules(ck, P):
+    from . import c04 as _c04
+    _c04.override_order_rule(ck, P)
     server_wiring_rule(ck, P)
     leaves = comp.leaf_summaries(P)
     # ---------------- E-COMP-OPT
